@@ -51,7 +51,7 @@ def check(prog, run):
     blocks(prog, run)
     # what is called "reference k" must be the same physical sensor in every setup: the split takes them in the LISTED order
     from .. import seqsig
-    seqsig.order_obligations(prog, run, "R-order", which=("pre", "reflists"))
+    seqsig.order_obligations(prog, run, "R-order", which=("pre", "reflists", "split_current"))
 
 
 WANT_ROWS = "(ref ; for k0 in 0..N: (mov[k0]))"
